@@ -1,4 +1,7 @@
+pub mod c01;
 pub mod c06;
 pub mod c09;
 pub mod c11;
+pub mod c12;
 pub mod c14;
+pub mod c18;
